@@ -1516,6 +1516,120 @@ theorem nonvacuous_run :
   have hI := ice_iff_recorded xInp 0 hst.dt_pos hadm 2 _ hc2 0 xV2 hv2
   exact ⟨x_wf, hst, x_hside, hadm, x_traj, hA, ⟨(hB.2.1 hσ3).1, (hB.2.1 hσ3).2, hlow⟩, hI⟩
 
+/-- **`StaticSide` is inhabited**: the run `xInp` satisfies the static inequality, and
+`run_bounds_contacts_partial` applies to it (its `ContactsBelow` hypothesis is vacuous there: the
+single vial is never warmed). -/
+theorem x_staticSide : StaticSide xPhys xInp.p xInp.nVials xInp.oc.stop := by
+  intro i hi
+  have : i = 0 := by simp [xInp] at hi; omega
+  subst this
+  have hH : Hsum xInp.p 0 = 1 / 4 := by simp only [Hsum, xInp, xParams]; norm_num
+  rw [hH, x_m]; simp only [xInp, xParams, xPhys]; norm_num
+
+/-- a COUPLED two-vial batch of the dyadic solution, shelf at −5 °C, process starting above the
+liquidus (`hi = 0 > T_eq_l = −1`): `k_int·A = 1/4`, shelf coefficients `1/32` and `1/16` -/
+noncomputable def cParams : Params ℝ where
+  c := xPhys.consts
+  nbrs := [[1], [0]]
+  ext := [0, 0]
+  kInt := 1 / 4
+  kExt := 0
+  kShelf := [1 / 32, 1 / 16]
+  A := 1
+  kb := [1, 1]
+  dt := 1
+  threshold := 9 / 10
+  initIce := .indirect
+
+/-- both vials contain ice; vial 0 (σ = 1/2, −2 °C) is colder than its neighbour (σ = 1/5, −1.25 °C) -/
+noncomputable def cState : State ℝ :=
+  ⟨#[{ T := -2, sigma := 1 / 2, tNuc := some 1 }, { T := -5 / 4, sigma := 1 / 5, tNuc := some 2 }], []⟩
+
+theorem c_Hsum (i : Nat) (hi : i < 2) : Hsum cParams i ≤ 5 / 16 ∧ 0 ≤ Hsum cParams i := by
+  have : i = 0 ∨ i = 1 := by omega
+  rcases this with rfl | rfl <;> simp only [Hsum, cParams] <;> norm_num
+
+theorem c_stable : Stable xPhys cParams 2 (-5) 0 := by
+  have hcm : cpMin xPhys = 1 := by unfold cpMin; rw [x_cpl, x_cp]; simp
+  refine ⟨xPhys_valid, by simp [cParams], rfl, ?_, ?_, ?_, ?_, ?_, ?_⟩
+  · intro i hi
+    have : i = 0 ∨ i = 1 := by omega
+    rcases this with rfl | rfl <;> constructor <;> simp only [cParams] <;> norm_num
+  · intro i hi j hj
+    have : i = 0 ∨ i = 1 := by omega
+    rcases this with rfl | rfl <;> simp [cParams] at hj <;> omega
+  · intro i hi
+    obtain ⟨h1, h2⟩ := c_Hsum i hi
+    have hdt : cParams.dt = 1 := rfl
+    rw [x_m, hcm, hdt]
+    generalize Hsum cParams i = H at h1 h2
+    linarith
+  · intro i hi
+    obtain ⟨h1, h2⟩ := c_Hsum i hi
+    have hdt : cParams.dt = 1 := rfl
+    have hL : xPhys.lam * (1 - xPhys.w_s) = 4 := by simp only [xPhys]; norm_num
+    rw [x_m, hcm, x_D, hdt, hL]
+    generalize Hsum cParams i = H at h1 h2
+    nlinarith
+  · rw [x_TeqL]; norm_num
+  · rw [x_TeqL, x_gamma]; norm_num
+
+theorem c_static : StaticSide xPhys cParams 2 (-5) := by
+  intro i hi
+  obtain ⟨h1, h2⟩ := c_Hsum i hi
+  have hdt : cParams.dt = 1 := rfl
+  have hL : xPhys.lam * (1 - xPhys.w_s) = 4 := by simp only [xPhys]; norm_num
+  have hTm : xPhys.T_m = 0 := rfl
+  rw [x_m, hdt, hL, hTm]
+  generalize Hsum cParams i = H at h1 h2
+  linarith
+
+/-- **the monitored regime is inhabited at step level**: in the coupled batch `cParams`, inside
+`Stable` (process starting ABOVE the liquidus) and `StaticSide`, the admissible state `cState`
+has an ice-containing vial that IS warmed by its neighbour (`q₀ = 3/32 > 0`), all its contacts
+are at or below `T_eq_l` (`ContactsBelow`), hence `SideCond` holds (`sideCond_of_contacts`) and
+`step_inv` applies: the next state is admissible and within `[−5, 0]`. (Step level: `cState` is
+constructed, not reached from a uniform start — the shortest such run found needs 9 steps and
+its exact rationals are unmanageable; run-level witness with ice: `nonvacuous_run`.) -/
+theorem nonvacuous_coupled_step :
+    Stable xPhys cParams 2 (-5) 0 ∧ StaticSide xPhys cParams 2 (-5) ∧ AdmState xPhys (-5) 0 cState ∧
+    heatFlow cParams (temps cState) (-5) (-5) 0 = 3 / 32 ∧
+    ContactsBelow xPhys cParams cState (-5) ∧ SideCond xPhys cParams cState (-5) ∧
+    AdmState xPhys (-5) 0 (stepCN cParams false 7 (-5) cState) := by
+  have hq0 : heatFlow cParams (temps cState) (-5) (-5) 0 = 3 / 32 := by
+    simp [heatFlow, qInt, hExt, hShelf, hDiag, hOff, cParams, temps, cState]; norm_num
+  have hq1 : heatFlow cParams (temps cState) (-5) (-5) 1 < 0 := by
+    simp [heatFlow, qInt, hExt, hShelf, hDiag, hOff, cParams, temps, cState]; norm_num
+  have hv : ∀ (i : Nat) (v : Vial ℝ), cState.vials[i]? = some v →
+      (i = 0 ∧ v = { T := -2, sigma := 1 / 2, tNuc := some 1 }) ∨
+      (i = 1 ∧ v = { T := -5 / 4, sigma := 1 / 5, tNuc := some 2 }) := by
+    intro i v h
+    match i, h with
+    | 0, h => left; exact ⟨rfl, by simpa [cState] using h.symm⟩
+    | 1, h => right; exact ⟨rfl, by simpa [cState] using h.symm⟩
+    | i + 2, h => simp [cState] at h
+  have hadm : AdmState xPhys (-5) 0 cState := by
+    constructor
+    · intro i v h
+      rcases hv i v h with ⟨_, rfl⟩ | ⟨_, rfl⟩
+      · right; refine ⟨by norm_num, by norm_num, ?_, by simp⟩; rw [x_curve]; norm_num
+      · right; refine ⟨by norm_num, by norm_num, ?_, by simp⟩; rw [x_curve]; norm_num
+    · intro i v h
+      rcases hv i v h with ⟨_, rfl⟩ | ⟨_, rfl⟩ <;> norm_num
+  have hc : ContactsBelow xPhys cParams cState (-5) := by
+    intro i v h _ hq
+    rcases hv i v h with ⟨rfl, _⟩ | ⟨rfl, _⟩
+    · refine ⟨by rw [x_TeqL]; norm_num, fun j hj => ?_⟩
+      have : j = 1 := by simpa [cParams] using hj
+      subst this
+      rw [x_TeqL]; simp [temps, cState]; norm_num
+    · exact absurd hq (not_lt.mpr (le_of_lt hq1))
+  have hside := sideCond_of_contacts c_stable c_static cState (-5) (-5) (by simp [cState]) hadm
+    (le_refl _) (le_refl _) hc
+  exact ⟨c_stable, c_static, hadm, hq0, hc, hside,
+    step_inv c_stable false 7 (-5) (-5) cState (by simp [cState]) hadm (le_refl _) (le_refl _)
+      (by norm_num) hside⟩
+
 end exrun
 
 end Snow.C06
